@@ -585,8 +585,13 @@ CHECKS = {
             "cross_solvers": ["cvc5", "z3-new"], "pkg": BS,
             "funcs": ["VerifC19Step", "VerifC19Rest", "VerifC19History"],
             "params": {"quick": {"STEPS": 3}, "thorough": {"STEPS": 5}},
-            "max_paths": {"quick": 20000, "thorough": 200000},
+            "max_paths": {"quick": 20000, "thorough": 400000},
             "covers": {"VerifC19Step": ["max", "status"], "VerifC19Rest": ["update", "no-update"], "VerifC19History": ["history", "reloaded", "snapshot-saved", "snapshot-loaded", "fresh-from-snapshot", "loaded-while-open"]},
+        }, {
+            "pkg": BS, "funcs": ["VerifC19Concurrent"],
+            "params": {"quick": {"W": 1, "P": 1}, "thorough": {"W": 2, "P": 1}},
+            "max_paths": {"quick": 60000, "thorough": 400000},
+            "covers": {"VerifC19Concurrent": ["concurrent"]},
         }, {
             "pkg": ODB, "funcs": ["VerifSysTwoDBs"],
             "params": {"quick": {"N": 2}, "thorough": {"N": 3}},
@@ -598,6 +603,7 @@ CHECKS = {
             "covers": {"VerifEngineSelfTest": ["self-tested"], "VerifEngineSelfTest2": ["self-tested"]},
         }],
         "assumptions": [
+            "concurrent updates (VerifC19Concurrent): W local writes and the replication of a remote writer's two-entry chain (concurrent to, or continuing, the local history) run at the same time on one store, every schedule with at most P preemptions; progress and maximum are sampled when all calls have returned and at quiescence (never lower than before), and the at-rest clause is checked at quiescence (this harness found the lost-update race fixed in 011957e: 8 of 2091 schedules on the tree before the fix)",
             "history steps also include a Load on the OPEN store from its own disk (everything, or the 1..2 most recent entries); after a load that trimmed the log only the never-decrease clause is checked on that store (its log is no longer complete)",
             "inductive step: pre-state is ANY (progress, max, log length) with 0 <= progress <= max < 2^62, 0 <= length < 2^62; argument 0 <= x < 2^62",
             "entry points encoded: recalculateReplicationMax (main loop EventLoadAdded, LoadFromSnapshot) and recalculateReplicationStatus (AddOperation, Load, replicationLoadComplete, EventLoadProgress); recalculateReplicationProgress is only ever called from recalculateReplicationStatus",
